@@ -72,7 +72,8 @@ impl Default for GenOpts {
     }
 }
 
-pub const ID_POOL: [i32; 8] = [0, 1, 2, 3, 7, -1, -5, 2147483647];
+// small ids, negative ids, i32::MAX, and ids that an f32 cannot represent (|id| > 2^24)
+pub const ID_POOL: [i32; 11] = [0, 1, 2, 3, 7, -1, -5, 2147483647, 16777217, -2000000001, 123456789];
 
 pub const HOSTILE_COMMENTS: [&str; 14] = [
     "caldera <A> & \"B\"",
@@ -293,7 +294,8 @@ pub fn building(r: &mut Rng, o: &GenOpts) -> Spec {
                     ls.push(L { line: mk_used(id, s, "ELECTRICIDAD", cm), u });
                 }
                 3..=4 if want_amb => {
-                    // heat pump: electricity + ambient heat
+                    // heat pump: electricity + ambient heat (sometimes tagged as low-SCOP for the DHW indicator)
+                    let cm = if *s == "ACS" && g.r.chance(1, 6) { "CTEEPBD_EXCLUYE_SCOP_ACS".to_string() } else { cm };
                     let u = g.amounts(0.25, pz);
                     let amb: Vec<i64> = u.iter().map(|x| if *x > 0 { g.qr(*x, 1.0, 3.5).max(g.vmul) } else { 0 }).collect();
                     ls.push(L { line: mk_used(id, s, "ELECTRICIDAD", cm.clone()), u });
@@ -346,7 +348,12 @@ pub fn building(r: &mut Rng, o: &GenOpts) -> Spec {
             }
             let scen = g.r.below(10);
             let pid = if g.r.chance(1, 6) { *g.r.pick(&ID_POOL) } else { id };
+            let scen = if g.r.chance(1, 8) { 10 + g.r.below(3) } else { scen };
             let u: Option<Vec<i64>> = match scen {
+                // exactly a half / a quarter / three quarters of the use at every step
+                10 => Some(use_t.iter().map(|x| (x / (2 * g.vmul)) * g.vmul).collect()),
+                11 => Some(use_t.iter().map(|x| (x / (4 * g.vmul)) * g.vmul).collect()),
+                12 => Some(use_t.iter().map(|x| (3 * x / (4 * g.vmul)) * g.vmul).collect()),
                 0..=3 => None,                                                                  // nothing declared
                 4 => Some(use_t.clone()),                                                       // exact
                 5..=6 => Some(use_t.iter().map(|x| g.qr(*x, 0.0, 1.0)).collect()), // partial
@@ -431,6 +438,29 @@ pub fn building(r: &mut Rng, o: &GenOpts) -> Spec {
         }
     }
     let _ = (aux_sys, aux_multi_done);
+    // a system declared only through its outputs and auxiliaries (e.g. a distribution circuit): no CONSUMO lines
+    if want_aux && g.r.chance(1, 5) {
+        let id = pool[nsys.min(pool.len() - 1)];
+        if !ids.contains(&id) {
+            let nsrv = 1 + g.r.usize(2);
+            let mut srvs: Vec<&'static str> = vec![];
+            while srvs.len() < nsrv {
+                let s = *g.r.pick(&["ACS", "CAL", "REF"]);
+                if !srvs.contains(&s) {
+                    srvs.push(s);
+                }
+            }
+            for s in &srvs {
+                let mut u: Vec<i64> = (0..n).map(|_| g.amount(0.5)).collect();
+                if o.neg_out && *s == "REF" {
+                    u.iter_mut().for_each(|x| *x = -*x);
+                }
+                ls.push(L { line: Line::Out { id, srv: s.to_string(), v: vec![], comment: String::new() }, u });
+            }
+            let u = g.amounts(0.03, 2);
+            ls.push(L { line: Line::Aux { id, v: vec![], comment: comment(g.r, o.hostile_comments, "circuito") }, u });
+        }
+    }
 
     // ---- zero-use steps: electricity EPB uses and auxiliaries vanish
     for t in 0..n {
@@ -535,7 +565,11 @@ pub fn building(r: &mut Rng, o: &GenOpts) -> Spec {
                 ls.push(L { line: Line::Prod { id: cid, src: "EL_COGEN".into(), v: vec![], comment: comment(g.r, o.hostile_comments, "cogeneración") }, u: chp.clone() });
             }
             // fuel input: proportional with noise, or unrelated profile (fuel without electricity and vice versa)
-            let nf = if g.r.chance(1, 3) { 2 } else { 1 };
+            let nf = match g.r.below(12) {
+                0..=6 => 1,
+                7..=9 => 2,
+                _ => 3,
+            };
             for k in 0..nf {
                 let fuel = if o.el_cogen_input && g.r.chance(1, 10) { "ELECTRICIDAD" } else { *g.r.pick(&FUELS) };
                 let u: Vec<i64> = if g.r.chance(2, 3) {
